@@ -21,9 +21,12 @@ class P(vlib.Prop):
             "supported-pair matrices linking 1-3 (exporter pipeline, receiver pipeline) pairs each (60% forward-only, "
             "25% free, 15% with dangling uses), pipelines fed or drained by connectors only, 8% invalid configurations "
             "(duplicated processor, no receivers, no exporters).  The real graph.Build runs with instrumented "
-            "factories, then StartAll, then one tagged payload is injected at every receiver instance; compared with "
+            "factories (connectors from xconnector.NewFactory or from the stable connector.NewFactory; plain components from "
+            "the x* or the stable NewFactory constructors), then StartAll, then one fresh and one read-only tagged payload is "
+            "injected at every receiver instance (mutating processors/connectors, some mutating exporters); compared with "
             "the Coq model: Validate verdict, build error class (+ the named unsupported use / the reported cycle), "
-            "multiset of created and of started component nodes, per receiver the multiset of (exporter, trail). "
+            "multiset of created and of started component nodes, per receiver the multiset of (exporter, trail) for both "
+            "payloads, per connector instance the router's pipeline ids. "
             "Thorough tier: 4500 random configurations plus EVERY configuration of two pipelines (ids among traces/p0, "
             "traces/p1, metrics/p0; receivers and exporters any non-empty subset of {plain 0, connector 10}; zero or one "
             "processor; connector 10 supporting all pairs / same-signal pairs / traces->metrics only): 5832 configurations. "
